@@ -120,6 +120,22 @@ pub fn check_code(c: u16) -> Vec<Finding> {
                 }
             }
         }
+        // a record constructed as opaque bytes under this code reports the type the code denotes
+        {
+            use simple_dns::rdata::{RData, NULL};
+            let rd = RData::NULL(c, NULL::new(&[1, 2, 3]).expect("3 bytes"));
+            let tc = rd.type_code();
+            if tc != t || u16::from(tc) != c {
+                bad.push(("opaque-type_code".into(), format!("RData::NULL({}, ..).type_code() = {:?}, the code denotes {:?}", c, tc, t)));
+            }
+            let rec = simple_dns::ResourceRecord::new(simple_dns::Name::new_unchecked("o.example"), CLASS::IN, 1, rd);
+            if !rec.match_qtype(QTYPE::TYPE(t)) {
+                bad.push(("opaque-own-type".into(), format!("a record built as RData::NULL({}, ..) does not match a question for {:?}", c, t)));
+            }
+            if [7u16, 8, 9].contains(&c) != rec.match_qtype(QTYPE::MAILB) {
+                bad.push(("opaque-mailb".into(), format!("RData::NULL({}, ..) vs MAILB: {}", c, rec.match_qtype(QTYPE::MAILB))));
+            }
+        }
         // CLASS
         let exp_class = [1u16, 2, 3, 4, 254].contains(&c);
         match CLASS::try_from(c) {
